@@ -27,3 +27,14 @@ Print Assumptions C11_next_casadi.
 Theorem C11_all_off : forall A (NA : Num A) (E : engine A), all_off_is_raw E.
 Proof. intros. apply all_off_raw. Qed.
 Print Assumptions C11_all_off.
+
+(* Network.step as the model has it (read off network.py on every run, translator/facts.py): the six options default
+   to off, and the three phases hand on exactly the options the model applies in them *)
+From SM.specs Require Import SourceFacts_spec.
+From SM.proofs Require Import SourceFacts.
+Theorem C11_options_default_off : options_default_off.
+Proof. exact options_default_off_proof. Qed.
+Print Assumptions C11_options_default_off.
+Theorem C11_step_phases_as_modelled : step_phases_as_modelled.
+Proof. exact step_phases_as_modelled_proof. Qed.
+Print Assumptions C11_step_phases_as_modelled.
